@@ -7,6 +7,18 @@ HERE = os.path.dirname(os.path.abspath(__file__))
 
 # property -> (technique, level text, level note, design ref)
 CLAIMED = {
+    "C08": (
+        "runtime reference-model monitor: closed-form pinhole geometry in f64 as oracle for perspective/orthographic/viewport matrices (volume membership, depth bounds, depth order), for Camera::world_to_project (composition of the oracle's own matrices) and end to end (a sub-pixel triangle rendered through Camera::render must light the predicted pixel at the predicted reciprocal depth, only inside the viewport ∩ frame), and for FirstPerson poses (rigidity, axes, look_at, translate)",
+        "Perspective: focal 0.05..20, aspect 0.1..10, near<far with ratios up to 1e4 — near/far map to z/w = ∓1, z/w increases with depth, a view point is inside the volume iff its clip coordinates satisfy −w ≤ x,y,z ≤ w, w > 0 (points within rounding of a face skipped); orthographic boxes anywhere in ±50; viewport rectangles up to 4000 px map the NDC square corners and centre exactly. First person: look_at (incl. straight up/down, axis-aligned, azimuth ±180°), rotate_to/rotate with wrap and clamp — world_to_view orthonormal with det +1, position ↦ origin, target ↦ (0,0,d), equals the closed-form pose (right = up × horizontal heading), translate moves along right/up/horizontal-forward. Camera: viewports inside and partly outside frames ≤ 64², perspective and orthographic, dims = the intersection, clip coordinates vs pinhole prediction, end-to-end render confined to the intersection.",
+        "A viewport wholly outside the frame is outside the property's quantifier and not generated. Near/far tolerances follow the cancellation in the projection's z row.",
+        "DESIGN.md §5 C08",
+    ),
+    "C09": (
+        "runtime reference-model monitor: the same algebra in f64 on the exact f32 inputs (products, probes, determinant, inverse with measured condition number) plus bit-exact algebraic relations between library results (then ≡ compose with operands swapped)",
+        "Products of 1..6 random factors (translate, non-uniform ± scale, rotate_x/y/z by arbitrary and k·90° ± 1 ulp angles, shear, from_basis, scaled permutations): composite vs f64 product, probes through the composite vs through the parts in order, determinant vs f64 and multiplicativity (error relative to the Hadamard bound), inverse residual in both orders for measured condition number ≤ 1e3 (tolerance 3e-5·cond); constructor effects on points and the linear action on vectors of translation-free transforms; rotations length-preserving with det 1 and transpose = inverse; orient_y/orient_z; 3×3 compose/then/apply/apply_pt/transpose; all 24 row orders of a scaled permutation (every pivot pattern).",
+        "apply(&Vec3) is judged against its documented implicit-1 semantics; rotation sense as in the library's own documented examples; products with |det| ≤ 1e-4 are skipped because inverse() documents a debug panic for |det| ≤ f32::EPSILON.",
+        "DESIGN.md §5 C09",
+    ),
     "C19": (
         "runtime algebraic monitor over observed step outputs (step matrix over GF(2) observed on the 64 unit states, linearity monitored on every pair, order of the matrix computed offline ⇒ single cycle of length 2^64−1) + range monitors on generator states that are solved for by GF(2) linear algebra so that a draw consumes a chosen mantissa",
         "Period: f(0)=0, the observed 64×64 matrix M is invertible, M^(2^64−1)=I and M^((2^64−1)/p)≠I for all seven prime factors p; linearity f(a⊕b)=f(a)⊕f(b) and agreement with M on ≥ 2·10^6 random/structured pairs; f(M⁻¹y)=y on 10^6 outputs; equal seeds ⇒ equal sequences. Ranges: for every one of the 2^23 mantissas a float draw can consume a state is solved for and verified through the real call, then start ≤ sample < end is required for 12 ranges (unit, symmetric, negative, far from zero, one-ulp-wide, tiny, huge) and Bernoulli(p ≤ 0)/(p ≥ 1) never/always; integer ranges whose width fits i32 on random states and states solved to produce extreme low words; disk/ball inside, circle/sphere unit length on random states and on the 2^18 states whose two next draws hit the centre; array/vector/point/tuple distributions equal scalar draws from a cloned generator bit-for-bit.",
